@@ -212,3 +212,20 @@ package gortsplib
 //@   requires header != nil && headerSize >= 0
 //@   ensures[C12] err == nil ==> ret != nil && len(ret.Payload) <= len(payload)
 //@   modifies fresh
+
+// --- C17: key material taken from a MIKEY message ---------------------------------------------
+// The SRTP context built from a MIKEY message uses the message's key and MKI as they are and
+// pairs every SSRC with the roll-over counter announced for it, in message order.
+//@ func (ctx *wrappedSRTPContext) initialize
+//@   requires len(ctx.key) >= 16 && len(ctx.ssrcs) >= len(ctx.startROCs)
+//@   modifies ctx.w, all(srtp.Context), fresh
+
+//@ func mikeyToContext
+//@   requires mikeyMsg != nil
+//@   ensures[C17] err == nil ==> ret != nil && len(ret.ssrcs) == len(mikeyMsg.Header.CSIDMapInfo) && len(ret.startROCs) == len(mikeyMsg.Header.CSIDMapInfo)
+//@   ensures[C17] err == nil ==> forall j :: 0 <= j && j < len(mikeyMsg.Header.CSIDMapInfo) ==> ret.ssrcs[j] == mikeyMsg.Header.CSIDMapInfo[j].SSRC && ret.startROCs[j] == mikeyMsg.Header.CSIDMapInfo[j].ROC
+//@   ensures[C17] err == nil ==> len(ret.key) == 30
+//@   modifies all(srtp.Context), fresh
+//@   loop 1
+//@     invariant fresh(ssrcs) && fresh(startROCs) && ref(ssrcs) != ref(startROCs) && len(ssrcs) == len(mikeyMsg.Header.CSIDMapInfo) && len(startROCs) == len(mikeyMsg.Header.CSIDMapInfo)
+//@     invariant forall j :: 0 <= j && j < _i ==> ssrcs[j] == mikeyMsg.Header.CSIDMapInfo[j].SSRC && startROCs[j] == mikeyMsg.Header.CSIDMapInfo[j].ROC
